@@ -81,6 +81,13 @@ def klein_pts(vals, count, n, off=0):
     return out
 
 
+def far_pt(vals, n):
+    th = math.pi * vals[0]
+    v = np.zeros((1, n))
+    v[0, 0], v[0, 1] = 0.93 * math.cos(th), 0.93 * math.sin(th)
+    return v
+
+
 def proj_of(k):
     k = np.asarray(k, dtype=float)
     return np.concatenate([np.ones(k.shape[:-1] + (1,)), k], axis=-1)
@@ -518,7 +525,7 @@ def run_query(ctx, spec, op, X, pool, vals, kk):
         if spec.name != "tangent":
             X.coords("klein")
     elif op == "q_distance":
-        other = hyperbolic.Point(proj_of(klein_pts(vals, 1, n))[0])
+        other = hyperbolic.Point(proj_of(far_pt(vals, n))[0])
         pts.distance(other)
         pts.distance(pts)
     elif op == "q_origin_to":
@@ -530,7 +537,10 @@ def run_query(ctx, spec, op, X, pool, vals, kk):
             if tuple(Y.shape) == tuple(X.shape):
                 X.isometry_to(Y)
     elif op == "q_tangent":
-        other = hyperbolic.Point(proj_of(klein_pts(vals, 1, n, off=5))[0])
+        # a target that differs from every point of the object by construction (radius 0.93;
+        # the object's points have radius <= 0.87): the tangent towards the basepoint itself
+        # is not defined
+        other = hyperbolic.Point(proj_of(far_pt(vals, n))[0])
         tv = pts.unit_tangent_towards(other)
         tv.point_along(0.5)
         if spec.name == "tangent":
